@@ -192,4 +192,16 @@ PROPS["C20"] = {
                     "text against the same f64 expressions evaluated by the harness; the Lean model covers the integer counts"],
 }
 
+PROPS["C18"] = {
+    "families": ["C18"],
+    "nontrivial": _pred_ok,
+    "rule": "the union of the C08 histories (updates incl. failing ones, four predictors, fill_tags, resets, writes, all four filters), "
+            "the C06 tag cases, the C14 serialise->deserialise predictor pairs and the C15 filter cases (grapheme-rich texts), run in a "
+            "build with debug assertions and overflow checks so that every debug_assert! guarding an unchecked access and std's "
+            "unsafe-precondition checks panic; judged on 'no operation panics' and on agreement with the model (whose unchecked "
+            "accesses are checked ones yielding ub); non-trivial = distinct case whose operations returned",
+    "scopes": {},
+    "assumptions": ["memory safety inside daachorse and hashbrown and of deserialize_unchecked on self-produced bytes is outside the model"],
+}
+
 SETUP_EXTRA = [extras.build_repo_bins, extras.setup_feature_builds, extras.build_tantivy]
